@@ -354,7 +354,7 @@ func buildTable(seeds []*Seed, thorough bool) (*table, error) {
 	t.groups = append(t.groups, group{seed: -1, kind: "len-wire", n: len(t.lenWires)})
 	t.dims["length_wiring_targets"] = append(append([]string{}, lwTargetNames...), "node j (any j, itself included)")
 	t.dims["length_wiring_places"] = lwPlaceNames
-	t.dims["length_wiring_space"] = "holders S1, S2 (object streams) and n stream nodes; every assignment for n = 1 and n = 2; thorough n = 3: every assignment of the nodes (object streams direct)"
+	t.dims["length_wiring_space"] = "holders S1, S2 (object streams) and n stream nodes; every assignment for n = 1; n = 2: every assignment of the nodes and of S1 (thorough: and of S2); thorough n = 3: every assignment of the nodes (object streams direct)"
 	// crafted cross-reference level structures (xrefcraft.go); cheap, and early in the
 	// table so that a capped run on a slow machine has still explored them
 	if err := t.addXrefCrafted(thorough); err != nil {
